@@ -120,6 +120,20 @@ impl Scratch {
         root
     }
 }
+impl Scratch {
+    /// A new empty root directory that is not tied to a layout yet.
+    fn fresh_root(&mut self) -> PathBuf {
+        let root = self.base.join(format!("t{:04}", self.next));
+        self.next += 1;
+        std::fs::create_dir_all(&root).unwrap();
+        root
+    }
+    /// `layout` is what `root` looks like now (the history stream changes a tree in place).
+    fn adopt(&mut self, layout: &Layout, root: &Path) {
+        self.built.retain(|(_, r)| r != root);
+        self.built.push((layout.clone(), root.to_path_buf()));
+    }
+}
 impl Drop for Scratch { fn drop(&mut self) { let _ = std::fs::remove_dir_all(&self.base); } }
 
 // ------------------------------------------------------------------ cases
@@ -184,6 +198,45 @@ fn run_real(req: Request<Body>, api: &str, upd: Option<PathBuf>, rx_open: bool, 
     }
 }
 
+/// One Processor that lives across several requests (the `history` stream): whatever the endpoint keeps from one
+/// request to the next (a cache of resolved paths, a remembered update directory) is then in play, and the tree is
+/// changed between the requests. The consumer answers `Ok` to everything.
+struct Session { rt: tokio::runtime::Runtime, proc_: Arc<dyn rotonda::http::ProcessRequest>, log: Arc<Mutex<Vec<PathBuf>>> }
+
+impl Session {
+    fn new(api: &str, upd: Option<PathBuf>) -> Session {
+        let rt = tokio::runtime::Builder::new_current_thread().enable_all().start_paused(true).build().unwrap();
+        let log: Arc<Mutex<Vec<PathBuf>>> = Arc::new(Mutex::new(vec![]));
+        let log2 = log.clone();
+        let api = api.to_string();
+        let proc_ = rt.block_on(async move {
+            let (proc_, mut rx) = mk_mrt_processor(&api, upd, 8);
+            tokio::spawn(async move {
+                while let Some((p, tx)) = rx.recv().await {
+                    log2.lock().unwrap().push(p);
+                    if let Some(tx) = tx { let _ = tx.send(Ok("OK!".to_string())); }
+                }
+            });
+            proc_
+        });
+        Session { rt, proc_, log }
+    }
+    fn request(&self, req: Request<Body>) -> Obs {
+        self.log.lock().unwrap().clear();
+        let r = catch_unwind(AssertUnwindSafe(|| {
+            self.rt.block_on(async { self.proc_.process_request(&req).await.map(|r| r.status().as_u16()) })
+        }));
+        let enq = self.log.lock().unwrap().clone();
+        match r {
+            Ok(status) => Obs { panicked: None, status, enq },
+            Err(e) => {
+                let msg = e.downcast_ref::<String>().cloned().or_else(|| e.downcast_ref::<&str>().map(|s| s.to_string())).unwrap_or_default();
+                Obs { panicked: Some(msg), status: None, enq }
+            }
+        }
+    }
+}
+
 /// Is any component of `p` (below `/`) a symbolic link?
 fn has_link_component(p: &Path) -> bool {
     let mut cur = PathBuf::new();
@@ -194,7 +247,9 @@ fn has_link_component(p: &Path) -> bool {
     false
 }
 
-fn run_case(rec: &mut Recorder, scratch: &mut Scratch, layout: &Layout, c: &Case) {
+fn run_case(rec: &mut Recorder, scratch: &mut Scratch, layout: &Layout, c: &Case) { run_case_in(rec, scratch, layout, c, None) }
+
+fn run_case_in(rec: &mut Recorder, scratch: &mut Scratch, layout: &Layout, c: &Case, session: Option<&Session>) {
     let root = scratch.root(layout);
     let rb = root.as_os_str().as_bytes().to_vec();
     let realize = |v: &[u8]| replace_all(v, VROOT, &rb);
@@ -238,7 +293,7 @@ fn run_case(rec: &mut Recorder, scratch: &mut Scratch, layout: &Layout, c: &Case
         c.upd.as_ref().map(|u| hex(u)).unwrap_or("-".into()), if c.rx_open { "o" } else { "c" }, c.reply.name(),
         table_s, layout.spec());
 
-    let obs = run_real(req, &c.api, upd_real.clone(), c.rx_open, c.reply);
+    let obs = match session { Some(se) => se.request(req), None => run_real(req, &c.api, upd_real.clone(), c.rx_open, c.reply) };
 
     // ---- implementation line
     let enq_s = if obs.enq.is_empty() { "-".to_string() } else {
@@ -524,6 +579,54 @@ fn guided_file(rng: &mut Rng, t: &RandTree, upd: &[u8]) -> Vec<u8> {
     s
 }
 
+/// One Processor, several requests, the tree changed in between: the update directory (or an ancestor of it) is a
+/// symbolic link that is re-pointed from one dated directory to another, files appear and disappear. Every request is
+/// an ordinary `v1` case line carrying the tree *as it is at that moment*, so the (stateless) model judges each request
+/// against the current tree; an endpoint that remembers something from an earlier request disagrees with it.
+fn history(rec: &mut Recorder, scratch: &mut Scratch, rng: &mut Rng) {
+    let root = scratch.fresh_root();
+    let rb = root.as_os_str().as_bytes().to_vec();
+    let real = |vp: &str| PathBuf::from(OsString::from_vec(replace_all(&v(vp), VROOT, &rb)));
+    for d in ["/day1", "/day2", "/day1/sub"] { std::fs::create_dir_all(real(d)).unwrap(); }
+    let mut files: Vec<String> = vec!["/day1/a.mrt".into(), "/day2/b.mrt".into(), "/day1/c.mrt".into(), "/day2/c.mrt".into(), "/day1/sub/d.mrt".into()];
+    for f in &files { std::fs::write(real(f), b"MRT?").unwrap(); }
+    let via_ancestor = rng.chance(1, 3);
+    // cur -> dayN ; with `via_ancestor` the update path goes through a second link: up -> . , update_path = /up/cur
+    let mut target = 1;
+    std::os::unix::fs::symlink(real("/day1"), real("/cur")).unwrap();
+    if via_ancestor { std::os::unix::fs::symlink(&root, real("/up")).unwrap(); }
+    let upd = if via_ancestor { v("/up/cur") } else { v("/cur") };
+    let se = Session::new(API, Some(PathBuf::from(OsString::from_vec(replace_all(&upd, VROOT, &rb)))));
+    let layout_now = |target: usize, files: &Vec<String>| {
+        let mut e = vec![Entry::Dir(v("/day1")), Entry::Dir(v("/day2")), Entry::Dir(v("/day1/sub"))];
+        for f in files { e.push(Entry::File(v(f))); }
+        e.push(Entry::Link(v("/cur"), v(&format!("/day{target}"))));
+        if via_ancestor { e.push(Entry::Link(v("/up"), VROOT.to_vec())); }
+        Layout(e)
+    };
+    for _ in 0..rng.range(3, 9) {
+        match rng.below(5) {
+            0 | 1 => { target = 3 - target; let _ = std::fs::remove_file(real("/cur")); std::os::unix::fs::symlink(real(&format!("/day{target}")), real("/cur")).unwrap(); rec.bump("history.link-repointed"); }
+            2 => { let f = format!("/day{}/n{}.mrt", 1 + rng.below(2), rng.below(3)); if !files.contains(&f) { std::fs::write(real(&f), b"MRT?").unwrap(); files.push(f); rec.bump("history.file-added"); } }
+            3 => { if files.len() > 3 { let i = rng.below(files.len() as u64) as usize; let f = files.remove(i); let _ = std::fs::remove_file(real(&f)); rec.bump("history.file-removed"); } }
+            _ => {}
+        }
+        let layout = layout_now(target, &files);
+        scratch.adopt(&layout, &root);
+        let name = match rng.below(8) {
+            0 => "a.mrt".to_string(), 1 => "b.mrt".into(), 2 => "c.mrt".into(), 3 => "sub/d.mrt".into(),
+            4 => "../day1/a.mrt".into(), 5 => "../day2/b.mrt".into(),
+            _ => rng.pick(&files[..]).rsplit('/').next().unwrap().to_string(),
+        };
+        let q = format!("file={}", encode(name.as_bytes(), 0));
+        rec.bump("history.requests");
+        run_case_in(rec, scratch, &layout, &mk_case("GET", "/mrt/u1/queue", Some(&q), Some(upd.clone()), true, Reply::Ok), Some(&se));
+    }
+    // the tree goes away with the scratch base; forget the mapping so that no later case reuses this root
+    scratch.built.retain(|(_, r)| r != &root);
+    let _ = std::fs::remove_dir_all(&root);
+}
+
 fn main() {
     let args = parse_args();
     std::panic::set_hook(Box::new(|_| {}));
@@ -555,6 +658,9 @@ fn main() {
             run_case(&mut rec, &mut scratch, &l0, &mk_case("GET", "/mrt/u1/queue", Some(&q), upd0(*u), true, Reply::Ok));
         }
     }
+    // 1b. histories on one Processor with the tree changing between requests
+    for _ in 0..(if args.thorough { 4000 } else { 300 }) { history(&mut rec, &mut scratch, &mut rng); }
+
     // 2. encodings x shapes
     for f in FILES0 {
         for style in 0..6 {
